@@ -531,6 +531,7 @@ func (la *LockAnalysis) analyze(fn *ssa.Function) bool {
 					}
 				}
 				success := true
+				okCur := cur
 				if returnsError(fn) {
 					last := x.Results[len(x.Results)-1]
 					if c, ok := last.(*ssa.Const); !(ok && c.Value == nil) {
@@ -538,10 +539,16 @@ func (la *LockAnalysis) analyze(fn *ssa.Function) bool {
 						if u, ok := last.(*ssa.UnOp); ok && u.Op == token.MUL {
 							success = true // named result reloaded after defers: may be nil
 						}
+						// the error of a callee that holds a lock when it returns nil, passed on unchanged
+						if ls, kind := la.pendingOf(last); kind == opAcquireOnNil && ls != 0 && cur != topLocks {
+							success = true
+							okCur = cur | ls
+							pendingAcq |= ls
+						}
 					}
 				}
 				if success {
-					exitOK &= cur
+					exitOK &= okCur
 				}
 			}
 		}
